@@ -47,35 +47,47 @@ def addName (s : State) (k : Key) : State :=
   { s with imports := setKV k.1 (if ns.contains k.2 then ns else ns ++ [k.2]) s.imports
            counter := setKV k (count s k + 1) s.counter }
 
-/-- `Imports.append` for one `Import` -/
-def append1 (s : State) (i : Imp) : State :=
-  let s := match i.refPath with
-    | some p => if p = [] then s else { s with refPaths := setKV p i s.refPaths }
-    | none => s
-  let k := keyOf i
-  let s := addName s k
+/-- `self.reference_paths[import_.reference_path] = import_` -/
+def recordRef (s : State) (i : Imp) : State :=
+  match i.refPath with
+  | some p => if p = [] then s else { s with refPaths := setKV p i s.refPaths }
+  | none => s
+
+/-- `if import_.alias: self.alias[from_][name] = alias` (not for dotted names) -/
+def setAlias (s : State) (i : Imp) : State :=
   if i.name.contains '.' then s
   else match i.alias with
-    | some a => if a = [] then s else { s with alias := setKV k a s.alias }
+    | some a => if a = [] then s else { s with alias := setKV (keyOf i) a s.alias }
     | none => s
+
+/-- `Imports.append` for one `Import` -/
+def append1 (s : State) (i : Imp) : State := setAlias (addName (recordRef s i) (keyOf i)) i
+
+def setCount (s : State) (k : Key) (c : Int) : State := { s with counter := setKV k c s.counter }
+
+/-- `self[from_].remove(name)`; `if not self[from_]: del self[from_]` -/
+def dropName (s : State) (k : Key) : State :=
+  let ns := (names s k.1).filter (· ≠ k.2)
+  { s with imports := if ns = [] then delK k.1 s.imports else setKV k.1 ns s.imports }
+
+/-- `if import_.alias: del self.alias[from_][name]` (not for dotted names); `none` = KeyError -/
+def dropAlias (s : State) (i : Imp) : Option State :=
+  if i.name.contains '.' then some s
+  else match i.alias with
+    | some a =>
+      if a = [] then some s
+      else if (aliasOf s (keyOf i)).isNone then none
+      else some { s with alias := delK (keyOf i) s.alias }
+    | none => some s
 
 /-- `Imports.remove` for one `Import`; `none` = raises -/
 def remove1 (s : State) (i : Imp) : Option State :=
   let k := keyOf i
   let c := count s k - 1
-  let s := { s with counter := setKV k c s.counter }
+  let s := setCount s k c
   if c = 0 then
     -- `self[from_].remove(name)` raises KeyError when the name is absent
-    if ¬ present s k then none else
-    let ns := (names s k.1).filter (· ≠ k.2)
-    let s := { s with imports := if ns = [] then delK k.1 s.imports else setKV k.1 ns s.imports }
-    if i.name.contains '.' then some s
-    else match i.alias with
-      | some a =>
-        if a = [] then some s
-        else if (aliasOf s k).isNone then none   -- `del self.alias[from_][name]` raises KeyError
-        else some { s with alias := delK k s.alias }
-      | none => some s
+    if present s k then dropAlias (dropName s k) i else none
   else some s
 
 inductive Op where
